@@ -300,6 +300,7 @@ CHECKS = {
             {"name": "rapid", "pkg": "transport/grpcutil", "run": "^TestVF_C11_Rapid$",
              "checks": {"quick": 700, "thorough": 8000}, "shards": {"quick": 4, "thorough": 16}},
             {"name": "notifyorder", "pkg": "transport/grpcutil", "run": "^TestVF_C11_NotifyOrder$", "rapid": False},
+            {"name": "dialoverlap", "pkg": "transport/grpcutil", "run": "^TestVF_C11_DialOverlap$", "rapid": False},
         ],
     },
     "C19": {
